@@ -24,3 +24,8 @@ claim('C04',
       'who-may-write + edge-dominance (verify true-edge dominates the Connected write) + provenance slices on the state machine; digest-shape recognition calibrated against a fixture; wire-signature extraction of handshake codecs vs spec/handshake.json; Buf-consumption dataflow; step order/timeout wrapping in connect',
       'Decided from MIR on all paths: the only write of Connected is dominated by the true edge of ChallengeAck::verify(decode(data), self.our_challenge, self.cookie); verify is digest == compute_digest(challenge, cookie); compute_digest is MD5 over cookie ++ decimal(challenge) (recognised shape); the reply carries our challenge and the digest of the peer\'s; our_challenge only comes from generate_challenge(); negotiated flags are decoded.flags & self.flags; reset clears the challenges; emitted and parsed handshake messages have the protocol byte layout (widths, tag constants, length prefix equal to what follows, field order); every decoder read is covered by a remaining() guard; connect runs the steps in order, ?-propagates each, enables distribution framing only after the ack, and all handshake socket futures are arguments of tokio::time::timeout. Not decided: API-call interleavings as a reachability question, elapsed time, MD5 itself.',
       NOTE, 'DESIGN.md §4 C04')
+
+claim('C05',
+      'disallowed-API (who-may-call) rule on socket reads, forward-slice error-discipline rule, interval analysis proving the cap guard dominates the allocation, per-FrameMode width-table extraction and sibling comparison, wire-signature equality of the two writers',
+      'Decided from MIR: the framing read path (framing.rs, transport.rs, connection.rs) calls only exact-read primitives, so chunk-invariance reduces to tokio\'s read_exact contract; no read result is discarded (EOF inside a frame is an error); in both frame readers the wire length is bounded by a constant cap on every path to the body allocation; the prefix width per FrameMode agrees across length_prefix_size / frame_message / write_framed / read_framed (2 and 4 bytes, big-endian) and in the node\'s second reader; the one-shot framer and the streaming writer write prefix(len(data)) ++ data and nothing else. Not decided: tokio I/O behaviour, Pending scheduling.',
+      NOTE, 'DESIGN.md §4 C05')
